@@ -33,6 +33,9 @@ pub struct Case {
     /// extraction: all | subset (only one of the files is exported, the others are skipped)
     #[serde(default)]
     pub subset: bool,
+    /// the data sources return at most this many bytes per read (0: whatever is asked)
+    #[serde(default)]
+    pub src_read: u32,
 }
 
 /// source generating bytes on the fly (no buffer proportional to the size)
@@ -41,9 +44,13 @@ struct Gen {
     rng: Rng,
     constant: bool,
 }
+/// per-read limit of the generator sources of this (child) process
+static SRC_READ: std::sync::atomic::AtomicU64 = std::sync::atomic::AtomicU64::new(0);
 impl Read for Gen {
     fn read(&mut self, buf: &mut [u8]) -> io::Result<usize> {
-        let n = (buf.len() as u64).min(self.left) as usize;
+        let lim = SRC_READ.load(std::sync::atomic::Ordering::Relaxed);
+        let cap = if lim == 0 { buf.len() as u64 } else { lim.min(buf.len() as u64) };
+        let n = cap.min(self.left) as usize;
         if self.constant {
             buf[..n].fill(0x5a);
         } else {
@@ -78,9 +85,22 @@ fn config(layers: u8, level: u32) -> (ArchiveWriterConfig, [u8; 32]) {
     (c, sk)
 }
 
-fn write_archive<W: Write>(dest: W, layers: u8, level: u32, constant: bool, total: u64, oneblock: bool) -> Result<W, String> {
+fn write_archive<W: Write>(dest: W, layers: u8, level: u32, constant: bool, total: u64, shape: &str) -> Result<W, String> {
+    let oneblock = shape == "oneblock";
     let (c, _) = config(layers, level);
     let mut w = ArchiveWriter::from_config(dest, c).map_err(|e| e.to_string())?;
+    if shape == "twoopen" {
+        // two files open at once; the first receives everything in ONE append while the second is open
+        let a = w.start_file("file0").map_err(|e| e.to_string())?;
+        let b = w.start_file("file1").map_err(|e| e.to_string())?;
+        w.append_file_content(b, 500, Gen { left: 500, rng: Rng::new(3), constant }).map_err(|e| e.to_string())?;
+        w.append_file_content(a, total, Gen { left: total, rng: Rng::new(1), constant }).map_err(|e| e.to_string())?;
+        w.append_file_content(b, 500, Gen { left: 500, rng: Rng::new(4), constant }).map_err(|e| e.to_string())?;
+        w.end_file(a).map_err(|e| e.to_string())?;
+        w.end_file(b).map_err(|e| e.to_string())?;
+        w.finalize().map_err(|e| e.to_string())?;
+        return Ok(w.into_raw());
+    }
     if oneblock {
         // one big file in a single piece, plus a small one
         w.add_file("file0", total, Gen { left: total, rng: Rng::new(1), constant }).map_err(|e| e.to_string())?;
@@ -115,21 +135,23 @@ pub fn child(args: &[String]) {
     let constant = get("--data") == "constant";
     let mib: u64 = get("--mib").parse().unwrap_or(8);
     let scratch = get("--scratch");
-    let oneblock = get("--shape") == "oneblock";
+    let shape = get("--shape");
+    let shape = shape.as_str();
     let subset = get("--subset") == "1";
+    SRC_READ.store(get("--srcread").parse().unwrap_or(0), std::sync::atomic::Ordering::Relaxed);
     let total = mib << 20;
     let t0 = std::time::Instant::now();
     let res: Result<(alloc::Stats, alloc::Stats, u64), String> = (|| {
         if op == "write" {
             let m0 = alloc::mark();
-            let d = write_archive(Discard(0), layers, level, constant, total, oneblock)?;
+            let d = write_archive(Discard(0), layers, level, constant, total, shape)?;
             return Ok((m0, alloc::stats(), d.0));
         }
         // archive in a scratch file (not measured)
         let path = format!("{scratch}/c15-{}-{op}-{layers}-{level}-{mib}-{constant}.mla", std::process::id());
         {
             let f = io::BufWriter::new(std::fs::File::create(&path).map_err(|e| e.to_string())?);
-            let mut f = write_archive(f, layers, level, constant, total, oneblock)?;
+            let mut f = write_archive(f, layers, level, constant, total, shape)?;
             f.flush().map_err(|e| e.to_string())?;
         }
         let (_, sk) = config(layers, level);
@@ -200,9 +222,20 @@ pub fn cases(ctx: &Ctx) -> Vec<Case> {
                         if shape == "oneblock" && (data == "random" && level != levels[0]) {
                             continue;
                         }
-                        v.push(Case { op: op.into(), layers, level, data: data.into(), sizes_mib: s.clone(), shape: shape.into(), subset: false });
+                        v.push(Case { op: op.into(), layers, level, data: data.into(), sizes_mib: s.clone(), shape: shape.into(), subset: false, src_read: 0 });
                         if op == "extract" {
-                            v.push(Case { op: op.into(), layers, level, data: data.into(), sizes_mib: s.clone(), shape: shape.into(), subset: true });
+                            v.push(Case { op: op.into(), layers, level, data: data.into(), sizes_mib: s.clone(), shape: shape.into(), subset: true, src_read: 0 });
+                        }
+                    }
+                    // writer only: one huge append while another file is open; sources that return short reads
+                    if op == "write" && level == levels[0] {
+                        v.push(Case { op: op.into(), layers, level, data: data.into(), sizes_mib: s.clone(), shape: "twoopen".into(), subset: false, src_read: 0 });
+                        for (i, sr) in [1000u32, 4095, 8191, 65535, 1].into_iter().enumerate() {
+                            if sr == 1 && !(data == "constant" && layers == 0) {
+                                continue; // one byte per read: slow, one configuration is enough
+                            }
+                            let shape = if i % 2 == 0 { "oneblock" } else { "twoopen" };
+                            v.push(Case { op: op.into(), layers, level, data: data.into(), sizes_mib: if sr == 1 { vec![4, 16] } else { s.clone() }, shape: shape.into(), subset: false, src_read: sr });
                         }
                     }
                 }
@@ -244,7 +277,7 @@ pub fn run_case(ctx: &mut Ctx, c: &Case) {
             break;
         }
         let out = std::process::Command::new(&exe)
-            .args(["c15child", "--op", &c.op, "--layers", &c.layers.to_string(), "--level", &c.level.to_string(), "--data", &c.data, "--mib", &mib.to_string(), "--scratch", &scratch, "--shape", &c.shape, "--subset", if c.subset { "1" } else { "0" }])
+            .args(["c15child", "--op", &c.op, "--layers", &c.layers.to_string(), "--level", &c.level.to_string(), "--data", &c.data, "--mib", &mib.to_string(), "--scratch", &scratch, "--shape", &c.shape, "--subset", if c.subset { "1" } else { "0" }, "--srcread", &c.src_read.to_string()])
             .stderr(std::process::Stdio::null())
             .output();
         let Ok(out) = out else { continue };
@@ -276,6 +309,9 @@ pub fn run_case(ctx: &mut Ctx, c: &Case) {
     if results.len() >= 2 {
         ctx.count(&format!("growth_comparisons:{}", c.op));
         ctx.count(&format!("shape:{}{}", if c.shape.is_empty() { "interleaved" } else { &c.shape }, if c.subset { ":subset_extraction" } else { "" }));
+        if c.src_read != 0 {
+            ctx.count("sources_with_short_reads");
+        }
         let (m1, v1) = &results[0];
         let (m2, v2) = &results[results.len() - 1];
         let p1 = v1["peak_growth"].as_u64().unwrap_or(0);
